@@ -815,7 +815,6 @@ fn expected_probes<P: Property>() -> Vec<&'static str> {
             "BufWriter flushed mid-image",
             "strided view written (stride > width)",
             "zero-area image written",
-            "write error surfaced only in Drop: write_ppm returned Ok (not judged)",
             "write error reported to the caller",
             "file larger than default buffer capacity",
         ]);
